@@ -351,6 +351,8 @@ func (env *SpecEnv) btreeSpec(name string, n *ast.CallExpr) (SV, bool) {
 			panic("spec: built() of an unsupported builder location")
 		}
 		return &Scalar{T: sel(e.heapArr(st, "G|builder|content", arrSort(SInt, SStr)), a, SStr), Ty: types.Typ[types.String]}, true
+	case "runeStr":
+		return &Scalar{T: ufun("ext.runeString", []string{SInt}, SStr, scal(env.eval(n.Args[0]))), Ty: types.Typ[types.String]}, true
 	case "bytesIndex":
 		d := env.eval(n.Args[0]).(*SliceV)
 		return intSV(ufun("ext.bytes.Index", []string{SInt, SInt, SInt, SStr}, SInt, d.Base, d.Off, d.Len, scal(env.eval(n.Args[1])))), true
